@@ -5,6 +5,10 @@
      rand <seed> <n>        random (channels, streams, coupled, mapping) through decoder/encoder init+create,
                             get_left/right/mono_channel, validate_layout/validate_encoder_layout
      msval <seed> <n>       opus_multistream_packet_validate on concatenations of self-delimited packets
+     msenc <seed> <n>       (build with -DC10_STUB) opus_multistream_encode with every per-stream opus_encode_native replaced
+                            by a scripted one (a pre-generated packet when it fits curr_max, else BUFFER_TOO_SMALL): the
+                            curr_max values, the return value and the bytes written (real repacketizer)
+     projdec <seed> <n>     opus_projection_decoder_create/init on exported and on arbitrary matrices / arguments
      route <seed> <n>       (build with -DC10_STUB) opus_multistream_decode_native with the per-stream decoder
                             replaced by a scripted stub and a logging copy_channel_out: the call trace
      matrix <seed> <n>      mapping_matrix_multiply_channel_in_short / out_short on the built-in matrices and
@@ -16,8 +20,10 @@
    The static functions are reached by #including the repo .c files (compiled with the library's flags). */
 #ifdef C10_STUB
 #define opus_decode_native verif_decode_native
+#define opus_encode_native verif_encode_native
 #endif
 #include "vcommon.h"
+#include <math.h>
 #include "opus_multistream_encoder.c"
 #include "opus_multistream_decoder.c"
 #include "opus_projection_encoder.c"
@@ -361,6 +367,80 @@ static void run_route(uint64_t seed, long cases)
       opus_multistream_decoder_destroy(d);
    }
 }
+
+/* ---- multistream encode with scripted per-stream encoders */
+static struct { unsigned char *pk[256]; int len[256]; int n, call; int cm[256]; } escript;
+opus_int32 verif_encode_native(OpusEncoder *st, const opus_res *pcm, int frame_size, unsigned char *data, opus_int32 out_data_bytes,
+      int lsb_depth, const void *analysis_pcm, opus_int32 analysis_size, int c1, int c2, int analysis_channels, downmix_func downmix, int float_api)
+{
+   int s = escript.call++;
+   (void)st; (void)pcm; (void)frame_size; (void)lsb_depth; (void)analysis_pcm; (void)analysis_size; (void)c1; (void)c2; (void)analysis_channels; (void)downmix; (void)float_api;
+   if (s >= escript.n) { printf("O STUB-OVERRUN\n"); exit(5); }
+   escript.cm[s] = out_data_bytes;
+   if (escript.len[s] > out_data_bytes) return OPUS_BUFFER_TOO_SMALL;
+   memcpy(data, escript.pk[s], escript.len[s]);
+   return escript.len[s];
+}
+
+static void run_msenc(uint64_t seed, long cases)
+{
+   static unsigned char pkbuf[24][40000];
+   static opus_int16 pcm[5760 * 48];
+   vrng r; long c; r.s = seed;
+   for (c = 0; c < cases; c++) {
+      /* (dur class, count) decompositions of a total duration given in 2.5 ms units */
+      static const int units[6] = {1, 2, 4, 8, 16, 24};
+      static const int totals[9] = {1, 2, 4, 8, 16, 24, 32, 40, 48};
+      int st = vchance(&r, 85) ? vrange(&r, 1, 5) : vrange(&r, 6, 20), co = vbelow(&r, st + 1), ch = st + co;
+      int Fs = RATES[vbelow(&r, 5)], total = totals[vbelow(&r, 9)], frame_size = Fs / 400 * total;
+      int vbr = vbelow(&r, 2), s, i, sum = 0, ret, err = 0;
+      long maxd;
+      opus_int32 bitrate = 0; int have_br = 0;
+      unsigned char mapping[64], *out;
+      OpusMSEncoder *enc;
+      for (i = 0; i < ch; i++) mapping[i] = i;
+      for (s = 0; s < st; s++) {
+         int tot = total, d, cnt;
+         if (vchance(&r, 4)) tot = totals[vbelow(&r, 9)];                 /* wrong duration (outside the contract) */
+         do { d = vbelow(&r, 6); } while (tot % units[d] || tot / units[d] > 48);
+         cnt = tot / units[d];
+         escript.len[s] = (int)gen_sub(&r, 0, d, cnt, pkbuf[s]);
+         if (vchance(&r, 3)) escript.len[s] = (int)mutate(&r, pkbuf[s], escript.len[s]);
+         if (escript.len[s] > 7662) escript.len[s] = 7662;
+         escript.pk[s] = pkbuf[s];
+         sum += escript.len[s];
+      }
+      escript.n = st; escript.call = 0;
+      { int k = vbelow(&r, 10), need = sum + 2 * (st - 1);
+        maxd = k < 6 ? need + vrange(&r, -4, 6) : k < 8 ? need + vrange(&r, 7, 600) : k < 9 ? 4000L * st : vrange(&r, -2, 3 * st + 2);
+        if (maxd > 200000) maxd = 200000; }
+      if (!vbr || vchance(&r, 30)) {                                      /* explicit bitrate, or OPUS_BITRATE_MAX */
+         if (vchance(&r, 50)) { have_br = 1; bitrate = (opus_int32)((sum + 2 * st + vrange(&r, -6, 40)) * 8L * Fs / frame_size); /* the range OPUS_SET_BITRATE on the multistream encoder stores unchanged (it clamps to [500, 300000] per channel) */
+                                if (bitrate < 500 * ch) bitrate = 500 * ch; if (bitrate > 300000 * ch) bitrate = 300000 * ch; }
+      }
+      enc = opus_multistream_encoder_create(Fs, ch, st, co, mapping, OPUS_APPLICATION_AUDIO, &err);
+      if (!enc) { printf("O CREATE-FAILED\n"); exit(5); }
+      opus_multistream_encoder_ctl(enc, OPUS_SET_VBR(vbr));
+      opus_multistream_encoder_ctl(enc, OPUS_SET_BITRATE(have_br ? bitrate : OPUS_BITRATE_MAX));
+      if (vbr && !have_br && vchance(&r, 50)) opus_multistream_encoder_ctl(enc, OPUS_SET_BITRATE(OPUS_AUTO));
+      printf("I layout msenc %d %d %d %d ", st, Fs, frame_size, vbr);
+      if (have_br) printf("%d", bitrate); else printf("-");
+      printf(" %ld ", maxd);
+      for (s = 0; s < st; s++) { if (s) printf("/"); vhex(stdout, pkbuf[s], escript.len[s]); }
+      printf("\n"); fflush(stdout);
+      out = (unsigned char *)malloc(maxd > 0 ? maxd : 1);
+      ret = opus_multistream_encode(enc, pcm, frame_size, out, (opus_int32)maxd);
+      printf("O ret=");
+      if (ret < 0) printf("%s", verr(ret)); else printf("%d", ret);
+      printf(" cm=");
+      if (!escript.call) printf("-");
+      for (s = 0; s < escript.call; s++) printf("%s%d", s ? "," : "", escript.cm[s]);
+      if (ret >= 0) { printf(" data="); vhex(stdout, out, ret); }
+      printf("\n");
+      free(out);
+      opus_multistream_encoder_destroy(enc);
+   }
+}
 #endif
 
 /* ------------------------------------------------------------------ mapping matrices */
@@ -427,6 +507,57 @@ static void do_mixout(int o, int demix, int input_row, int input_rows, int outpu
    free(m); free(inx); free(outx);
 }
 
+static void pr_bits(const float *v, int n) { int i; if (!n) printf("-"); for (i = 0; i < n; i++) printf("%s%u", i ? "," : "", f2u(v[i])); }
+static void do_mixinf(int o, int demix, int input_rows, int output_row, int output_rows, int frame_size, const float *in)
+{
+   MappingMatrix *m = make_matrix(o, demix);
+   float *inx = (float *)malloc(sizeof(float) * (input_rows * frame_size + 1));
+   float *out = (float *)calloc(output_rows * frame_size + 1, sizeof(float)), res[8];
+   int i;
+   memcpy(inx, in, sizeof(float) * input_rows * frame_size);
+   printf("I layout mixinf %d %s %d %d %d %d ", o, demix ? "demix" : "mix", input_rows, output_row, output_rows, frame_size);
+   pr_bits(in, input_rows * frame_size);
+   printf("\n"); fflush(stdout);
+   mapping_matrix_multiply_channel_in_float(m, inx, input_rows, out, output_row, output_rows, frame_size);
+   for (i = 0; i < frame_size; i++) res[i] = out[output_rows * i];
+   printf("O OK "); pr_bits(res, frame_size); printf("\n");
+   free(m); free(inx); free(out);
+}
+static void do_mixoutf(int o, int demix, int input_row, int input_rows, int output_rows, int frame_size, const float *in, const float *out0)
+{
+   MappingMatrix *m = make_matrix(o, demix);
+   int nin = frame_size ? input_rows * (frame_size - 1) + 1 : 0;
+   float *inx = (float *)malloc(sizeof(float) * (nin + 1));
+   float *outx = (float *)malloc(sizeof(float) * (output_rows * frame_size + 1));
+   memcpy(inx, in, sizeof(float) * nin);
+   memcpy(outx, out0, sizeof(float) * output_rows * frame_size);
+   printf("I layout mixoutf %d %s %d %d %d %d ", o, demix ? "demix" : "mix", input_row, input_rows, output_rows, frame_size);
+   pr_bits(in, nin); printf(" "); pr_bits(out0, output_rows * frame_size);
+   printf("\n"); fflush(stdout);
+   mapping_matrix_multiply_channel_out_float(m, inx, input_row, input_rows, outx, output_rows, frame_size);
+   printf("O OK "); pr_bits(outx, output_rows * frame_size); printf("\n");
+   free(m); free(inx); free(outx);
+}
+/* exact-domain float cases: every product, partial sum and scaled result is a binary32 value, so the result does not
+   depend on rounding, evaluation precision or contraction */
+static void run_matrix_float(vrng *r, long cases)
+{
+   long c;
+   for (c = 0; c < cases; c++) {
+      int o = vrange(r, 2, 6), demix = vbelow(r, 2), n = o * o + 2, ch = vchance(r, 50) ? n : n - 2;
+      int frame_size = vrange(r, 1, 3), i, k, j = vbelow(r, 21), rows = ch;
+      float fin[38 * 3], fout[38 * 3], unit = ldexpf(1.f, -j);
+      memset(fin, 0, sizeof fin);
+      if (vchance(r, 50)) for (i = 0; i < frame_size; i++) fin[i * rows + vbelow(r, rows)] = (float)vrange(r, -255, 255) * unit;
+      else for (i = 0; i < frame_size * rows; i++) fin[i] = (float)vrange(r, -7, 7) * unit;
+      do_mixinf(o, demix, rows, vbelow(r, ch), vchance(r, 50) ? 1 : 2, frame_size, fin);
+      /* out_float: sample k*2^-j (|k| < 128), accumulator q*2^-(15+j) with |q| < 2^22 */
+      for (i = 0; i < frame_size; i++) fin[i] = (float)vrange(r, -127, 127) * unit;
+      for (k = 0; k < frame_size * ch; k++) fout[k] = vchance(r, 50) ? 0.f : (float)vrange(r, -4194303, 4194303) * ldexpf(1.f, -15 - j);
+      do_mixoutf(o, demix, vbelow(r, ch), 1, ch, frame_size, fin, fout);
+   }
+}
+
 /* exact-domain int16 inputs for the float accumulation of in_short: either one non-zero channel per
    sample with few significant bits, or all channels with |x| <= 7 (|sum| < 2^24) */
 static void gen_exact_input(vrng *r, opus_int16 *in, int rows, int frame_size)
@@ -465,6 +596,7 @@ static void run_matrix(uint64_t seed, long cases)
       }
       do_mixout(o, demix, vbelow(&r, ch), vchance(&r, 50) ? 1 : 2, ch, frame_size, fin, out);
    }
+   run_matrix_float(&r, cases / 2 + 20);
    /* saturation boundary of out_short: accumulator chosen so that acc + ((cell*sample+16384)>>15) lands on
       32766..32769 and -32767..-32770 for a random cell of the matrix column */
    for (c = 0; c < cases / 4 + 40; c++) {
@@ -576,6 +708,59 @@ static void gen_blocks(vrng *r, float *pcm, int ch, int n, int Fs, long t0, unsi
    }
 }
 #include "opus_projection_decoder.c"
+
+/* ---- projection decoder creation: exported matrices and arbitrary arguments */
+static void do_projdec(int create, int fsok, int ch, int st, int co, const unsigned char *dm, long nbytes, long size)
+{
+   unsigned char *m = vexact(dm, nbytes);
+   OpusProjectionDecoder *d; int ret = 0, i;
+   printf("I layout projdec %s %d %d %d %d ", create ? "create" : "init", fsok, ch, st, co); vhex(stdout, dm, nbytes); printf(" %ld\n", size);
+   fflush(stdout);
+   if (create) d = opus_projection_decoder_create(fsok ? 48000 : 44100, ch, st, co, m, (opus_int32)size, &ret);
+   else { d = (OpusProjectionDecoder *)bigbuf; ret = opus_projection_decoder_init(d, fsok ? 48000 : 44100, ch, st, co, m, (opus_int32)size); }
+   if (ret != OPUS_OK) printf("O %s\n", verr(ret));
+   else {
+      MappingMatrix *mx = get_dec_demixing_matrix(d); opus_int16 *cells = mapping_matrix_get_data(mx);
+      printf("O OK st="); pr_layout(&get_multistream_decoder(d)->layout);
+      printf(" m=%dx%d:%d cells=", mx->rows, mx->cols, mx->gain);
+      if (!(mx->rows * mx->cols)) printf("-");
+      for (i = 0; i < mx->rows * mx->cols; i++) printf("%s%d", i ? "," : "", cells[i]);
+      printf("\n");
+      if (create) opus_projection_decoder_destroy(d);
+   }
+   free(m);
+}
+static void run_projdec(uint64_t seed, long cases)
+{
+   static unsigned char dm[20000];
+   vrng r; long c; int o, sub; r.s = seed;
+   /* the matrices the encoder exports, at the exact size and around it */
+   for (o = 2; o <= 6; o++) for (sub = 0; sub < 2; sub++) {
+      int ch = o * o + (sub ? 0 : 2), streams, coupled, err; opus_int32 dsz = 0;
+      OpusProjectionEncoder *pe = opus_projection_ambisonics_encoder_create(48000, ch, 3, &streams, &coupled, OPUS_APPLICATION_AUDIO, &err);
+      if (!pe) continue;
+      opus_projection_encoder_ctl(pe, OPUS_PROJECTION_GET_DEMIXING_MATRIX_SIZE(&dsz));
+      opus_projection_encoder_ctl(pe, OPUS_PROJECTION_GET_DEMIXING_MATRIX(dm, dsz));
+      opus_projection_encoder_destroy(pe);
+      do_projdec(1, 1, ch, streams, coupled, dm, dsz, dsz);
+      do_projdec(0, 1, ch, streams, coupled, dm, dsz, dsz);
+      do_projdec(1, 0, ch, streams, coupled, dm, dsz, dsz);
+      do_projdec(1, 1, ch, streams, coupled, dm, dsz, dsz + 2);
+      do_projdec(0, 1, ch, streams, coupled, dm, dsz, dsz - 2);
+      do_projdec(1, 1, ch, streams + 1, coupled - 1, dm, dsz, dsz);
+      do_projdec(1, 1, ch, coupled, streams, dm, dsz, dsz);
+   }
+   for (c = 0; c < cases; c++) {
+      int ch = vchance(&r, 85) ? vrange(&r, 1, 12) : (vchance(&r, 50) ? vrange(&r, -2, 60) : vrange(&r, 250, 258));
+      int st = vchance(&r, 85) ? vrange(&r, 1, 8) : vrange(&r, -1, 40), co = vchance(&r, 85) ? vrange(&r, 0, st > 0 ? st : 0) : vrange(&r, -1, st + 1);
+      long want = 2L * (st + co) * ch, size = vchance(&r, 75) ? want : want + 2 * vrange(&r, -2, 2), nbytes, i;
+      if (size < 0) size = 0;
+      if (size > (long)sizeof dm - 8) continue;
+      nbytes = size;                               /* the buffer always holds what the caller announces */
+      for (i = 0; i < nbytes; i++) dm[i] = (unsigned char)(vchance(&r, 20) ? (vchance(&r, 50) ? 0x80 : 0xff) : vnext(&r));
+      do_projdec(vbelow(&r, 2), !vchance(&r, 6), ch, st, co, dm, nbytes, size);
+   }
+}
 
 static int run_search(uint64_t seed, long cases, int verbose, int directed)
 {
@@ -825,7 +1010,9 @@ int main(int argc, char **argv)
    else if (argc >= 4 && !strcmp(argv[1], "matrix")) run_matrix(strtoull(argv[2], 0, 10), atol(argv[3]));
 #ifdef C10_STUB
    else if (argc >= 4 && !strcmp(argv[1], "route")) run_route(strtoull(argv[2], 0, 10), atol(argv[3]));
+   else if (argc >= 4 && !strcmp(argv[1], "msenc")) run_msenc(strtoull(argv[2], 0, 10), atol(argv[3]));
 #else
+   else if (argc >= 4 && !strcmp(argv[1], "projdec")) run_projdec(strtoull(argv[2], 0, 10), atol(argv[3]));
    else if (argc >= 4 && !strcmp(argv[1], "search")) return run_search(strtoull(argv[2], 0, 10), atol(argv[3]), argc >= 5 ? atoi(argv[4]) : 0, 0);
    else if (argc >= 4 && !strcmp(argv[1], "straddle")) return run_search(strtoull(argv[2], 0, 10), atol(argv[3]), argc >= 5 ? atoi(argv[4]) : 0, 1);
    else if (argc >= 2 && !strcmp(argv[1], "impulse")) return run_impulse();
